@@ -70,16 +70,18 @@ PosFuncs == <<"lowest_position", "highest_position">>
 
 -----------------------------------------------------------------------------
 (* The iteration mechanism.  Every operator builds                                          *)
-(*     iter_list = [tuple(...) for comb in np.nditer([layer_1.data, ..., layer_L.data])]    *)
-(* computes one value per entry and reshapes the flat result with (-1, ncols).  np.nditer's *)
-(* default order is 'K': it walks the operands in the order that is closest to their memory *)
-(* layout.  For 2-D operands of equal shape (numpy's npyiter_find_best_axis_ordering and     *)
-(* npyiter_flip_negative_strides):                                                          *)
+(*   iter_list = [tuple(...) for comb in np.nditer([layer_1.data, ..., layer_L.data],       *)
+(*                                                  order='C')]                              *)
+(* computes one value per entry and reshapes the flat result with (-1, ncols).  order = "C" *)
+(* (the code since fix ffb8ff0) walks the logical cells row-major whatever the memory       *)
+(* layout - the order the reshape assumes.  np.nditer's DEFAULT order 'K' (the code before  *)
+(* the fix, kept as a negative twin) walks the operands in the order closest to their       *)
+(* memory layout.  For 2-D operands of equal shape (numpy's                                  *)
+(* npyiter_find_best_axis_ordering and npyiter_flip_negative_strides):                       *)
 (*   - the row axis becomes the fast one iff EVERY operand has |row stride| < |col stride|   *)
 (*     (on a conflict between operands C order wins),                                        *)
 (*   - an axis is walked backwards iff every operand's stride on it is <= 0 and one is < 0.  *)
-(* A layout is a pair <<sy, sx>> of element strides.  order = "C" is the iteration the       *)
-(* reshape assumes.                                                                          *)
+(* A layout is a pair <<sy, sx>> of element strides.                                         *)
 Abs(x) == IF x < 0 THEN -x ELSE x
 
 ColMajor(lays, H, W, order) ==
